@@ -40,6 +40,8 @@ type Ctx struct {
 	notes  []string
 	seen   map[string]int
 	tmplAll *TmplAll
+	lexW    *lexWriter
+	parW    *parserWriter
 }
 
 func (c *Ctx) add(rule, construct string, st State, pos, reason string) *Obligation {
@@ -258,6 +260,13 @@ func report(c *Ctx, spec *PropSpec, verifDir string, wall float64, replayCmd str
 		}
 		sort.Strings(tv)
 		cov["template_variants"] = tv
+	}
+	if spec.Assumptions == nil {
+		spec.Assumptions = []string{}
+	}
+	if spec.Trusted == nil {
+		spec.Trusted = []string{}
+		cov["trusted_base"] = spec.Trusted
 	}
 	ev := map[string]any{
 		"property_id": c.Prop,
